@@ -345,7 +345,7 @@ func (r *funcResultsResolver) callExprResultAt(vs visits, at int, callExpr *ast.
 										inlineFnRets := inlineFn.Results()
 
 										for inlineRetAt := 0; inlineRetAt < inlineFnRets.Len(); inlineRetAt++ {
-											if inlineRetType := rets.At(inlineRetAt).Type(); inlineRetType.String() == "error" {
+											if inlineRetType := inlineFnRets.At(inlineRetAt).Type(); inlineRetType.String() == "error" {
 												for ret := range r.resultsFromAstAt(vs, inlineRetAt, x.Type, x.Body) {
 													if !yield(ret) {
 														return
